@@ -542,7 +542,9 @@ func (ex *Exec) nextModelLine(s *vscan) (string, bool) {
 	shape := ex.Input(fmt.Sprintf("file.line%d.shape", k), smt.Int)
 	ex.assume(ex.C.And(ex.C.Ge(shape, ex.C.IntC(0)), ex.C.Lt(shape, ex.C.IntC(int64(len(lineShapes))))), true)
 	n := ex.concretize(shape)
-	return strings.ReplaceAll(lineShapes[n], "#", fmt.Sprintf("%d", k)), true
+	ln := strings.ReplaceAll(lineShapes[n], "#", fmt.Sprintf("%d", k))
+	ln = strings.ReplaceAll(ln, fmt.Sprintf("@exotic%d", k), exoticTokens[k%len(exoticTokens)])
+	return ln, true
 }
 
 // scanSplit emulates bufio.Scanner with a user split function for a file that fits the
@@ -890,4 +892,8 @@ var lineShapes = []string{
 	"vertex $any:l#.x $any:l#.y $any:l#.z", // well-formed vertex line (numbers may still be malformed)
 	"vertex $any:l#.x $any:l#.y",           // too few fields
 	"facet normal 0 0 1",                   // any non-vertex line
+	"vertex @exotic# $any:l#.y $any:l#.z",  // a literal, malformed first number (see exoticTokens)
 }
+
+// literal malformed numeric tokens (ends in an exponent marker, lone sign, truncated hex float ...)
+var exoticTokens = []string{"1.0D", "1e", "-", "0x1p"}
